@@ -441,7 +441,10 @@ func (r *runner) handleInterrupt(
 		Inputs:         make(map[string]any),
 		SkipPreHandler: map[string]bool{},
 	}
-	if state, ok := ctx.Value(stateKey{}).(*internalState); ok {
+	// only a graph that declares state owns one: a nested graph without state works on the enclosing
+	// graph's state, found through the context chain. Saving that state here would hand the nested
+	// graph a private copy on resume and detach its nodes from the enclosing graph's state.
+	if state, ok := ctx.Value(stateKey{}).(*internalState); ok && r.runCtx != nil {
 		cp.State = state.state
 	}
 	intInfo := &InterruptInfo{
@@ -523,7 +526,10 @@ func (r *runner) handleInterruptWithSubGraphAndRerunNodes(
 		SkipPreHandler: skipPreHandler,
 		SubGraphs:      make(map[string]*checkpoint),
 	}
-	if state, ok := ctx.Value(stateKey{}).(*internalState); ok {
+	// only a graph that declares state owns one: a nested graph without state works on the enclosing
+	// graph's state, found through the context chain. Saving that state here would hand the nested
+	// graph a private copy on resume and detach its nodes from the enclosing graph's state.
+	if state, ok := ctx.Value(stateKey{}).(*internalState); ok && r.runCtx != nil {
 		cp.State = state.state
 	}
 	intInfo := &InterruptInfo{
